@@ -64,7 +64,9 @@ namespace igris
 
         template <class T> T deserialize()
         {
-            T obj;
+            // value-initialised: the storage may supply fewer bytes than
+            // asked for, and what is missing must not be indeterminate
+            T obj{};
             deserialize(obj);
             return obj;
         }
